@@ -16,7 +16,7 @@ def run_seed(verif_seed, prop, run_index):
 
 
 class Choices:
-    __slots__ = ("_rng", "_rec", "_pos", "record", "seed", "overrun", "marks", "count_pos")
+    __slots__ = ("_rng", "_rec", "_pos", "record", "seed", "overrun", "marks", "count_pos", "subruns")
 
     def __init__(self, seed=None, recorded=None):
         self.seed = seed
@@ -24,6 +24,7 @@ class Choices:
         self.overrun = 0
         self.marks = []        # positions in `record` where a self-contained unit (one operation) starts
         self.count_pos = None  # position of the draw that decided how many units there are
+        self.subruns = []      # positions where the scenarios of a multi-scenario run start
         if recorded is not None:
             self._rng = None
             self._rec = list(recorded)
@@ -52,6 +53,12 @@ class Choices:
             self._pos += 1
         self.record.append(v)
         return v
+
+    def mark_subrun(self):
+        self.subruns.append(len(self.record))
+        # operation marks / counts are per scenario
+        self.marks = []
+        self.count_pos = None
 
     def mark(self):
         """The draws from here to the next mark describe one self-contained operation: the
